@@ -57,3 +57,26 @@ func VerifGatherOperations(specDoc *analysis.Spec, operationIDs []string) (candi
 	}
 	return
 }
+
+// VerifFormatTables returns copies of the type/format tables of formats.go.
+func VerifFormatTables() (types map[string]string, formats map[string]map[string]string, zero, converters, formatters map[string]string, custom []string) {
+	cp := func(m map[string]string) map[string]string {
+		out := make(map[string]string, len(m))
+		for k, v := range m {
+			out[k] = v
+		}
+		return out
+	}
+	formats = map[string]map[string]string{}
+	for k, v := range formatMapping {
+		formats[k] = cp(v)
+	}
+	for k := range customFormatters {
+		custom = append(custom, k)
+	}
+	return cp(typeMapping), formats, cp(zeroes), cp(stringConverters), cp(stringFormatters), custom
+}
+
+// VerifPascalize / VerifPrefixForName expose the identifier helpers of the FuncMap.
+func VerifPascalize(s string) string     { return pascalize(s) }
+func VerifPrefixForName(s string) string { return prefixForName(s) }
